@@ -223,6 +223,9 @@ func (f *Frame) resolveName(name string) (Val, bool) {
 				switch in := instrs[i].(type) {
 				case *ssa.DebugRef:
 					if id, ok := in.Expr.(*ast.Ident); ok && id.Name == name {
+						if v, isVar := in.Object().(*types.Var); isVar && v.IsField() {
+							continue // the selector of a field access, not a variable of that name
+						}
 						if _, ok := f.vals[in.X]; !ok {
 							if _, isC := in.X.(*ssa.Const); !isC {
 								if _, isP := in.X.(*ssa.Parameter); !isP {
